@@ -22,6 +22,7 @@ func checkC01(c *chk.Ctx) {
 		"R01d every DB apply site is behind a commit guard",
 		"R01f the WAL reports an offset as synced only after a successful flush",
 		"R01h follower cursor attaches at the truncated head",
+		"R01i a follower head is accepted without truncation only when the leader log contains that entry (term equal, offset bounded)",
 	}
 	c.NotDec = []string{
 		"composition of these mechanisms into durability under arbitrary fault sequences",
@@ -34,6 +35,7 @@ func checkC01(c *chk.Ctx) {
 	ruleR01d(h, "R01d")
 	ruleR01f(h, "R01f")
 	ruleR03d(h, "R01h")
+	ruleNoTruncateDecision(h, "R01i")
 }
 
 // writeWorker finds the leader's write worker: the unique repository function that
